@@ -27,6 +27,22 @@ Theorem C08_pool_first_writer_wins : forall l l' k b,
   get k (pl (run init l)) = Some b -> get k (pl (run init (l ++ l'))) = Some b.
 Proof. intros l l' k b H. unfold run. rewrite fold_left_app. apply run_pool_stable. exact H. Qed.
 
+(* What the local node SIGNS (produces for voting and sending), on the prepare-ballot paths of the handlers
+   (makeINITBallot / makeACCEPTBallot / makeSuffrageConfirmBallot) and the mimic path alike: a thread whose pool
+   lookup found a ballot for the key prepares that very ballot; no second fact is signed. *)
+Theorem C08_prepare_reuses_pooled : forall s t k f h, getp t (seen s) = Some h ->
+  getp t (prep (step s (APrepare t k f))) = Some h /\
+  (blocal h = true -> signed (step s (APrepare t k f)) = signed s ++ [h]).
+Proof. exact prepare_reuses. Qed.
+
+(* Hence, when prepare paths run one after the other (mimic while syncing, then the consensus handler for the
+   same point -- any number of them, any keys, any facts they would sign), all ballots the local node produces
+   for one key are one ballot.  (Two paths that are both past their lookup before either stores still sign two
+   facts, of which only the first is broadcast: C08_single_fact.) *)
+Theorem C08_signed_single_fact_serial : forall l b1 b2,
+  In b1 (signed (run init (txns l))) -> In b2 (signed (run init (txns l))) -> bkey b1 = bkey b2 -> bfact b1 = bfact b2.
+Proof. intros l b1 b2 H1 H2 E. rewrite (serial_signed_single l b1 b2 H1 H2 E). reflexivity. Qed.
+
 (* The code before the fix (SetBallot's "already exists" ignored, the second ballot broadcast anyway) does
    equivocate: two deliveries for one key, both past their pool lookup before either stores. *)
 Theorem C08_ignore_set_result_refuted :
@@ -44,6 +60,11 @@ Qed.
 Example C08_ex_second_sends_first :
   log (run init [ALookup 1 7; ALookup 2 7; ASet 1 (mkB 7 100 true); ASet 2 (mkB 7 200 true); ABcast 1; ABcast 2])
   = [mkB 7 100 true; mkB 7 100 true].
+Proof. vm_compute. reflexivity. Qed.
+
+(* mimic pooled fact 100 for key 7; the handler, which would sign fact 200, reuses it *)
+Example C08_ex_handler_after_mimic :
+  map bfact (signed (run init (txns [(1, 7, 100); (2, 7, 200)]))) = [100; 100].
 Proof. vm_compute. reflexivity. Qed.
 
 (* different keys are independent; a ballot of another node is passed through untouched *)
